@@ -241,13 +241,22 @@ func udpWorld(c udpCfg) *world {
 			// collect the replies: everything that has arrived at each sender's socket
 			buf := make([]byte, 70000)
 			for _, p := range peers {
-				for mcsys.FdReadable(p.fd) {
-					n, from, err := mcsys.PRecvfrom(p.fd, buf)
-					if err != nil {
+				// replies are normally there already (loopback delivery is synchronous with sendto); the
+				// bounded real-time wait only guards against deferral to a softirq thread
+				deadline := time.Now().Add(300 * time.Millisecond)
+				for {
+					if mcsys.FdReadable(p.fd) {
+						n, from, err := mcsys.PRecvfrom(p.fd, buf)
+						if err != nil {
+							break
+						}
+						p.got = append(p.got, append([]byte{}, buf[:n]...))
+						p.from = append(p.from, saString(from))
+						continue
+					}
+					if len(p.got) >= p.want || !time.Now().Before(deadline) {
 						break
 					}
-					p.got = append(p.got, append([]byte{}, buf[:n]...))
-					p.from = append(p.from, saString(from))
 				}
 			}
 			_ = w.stopEngine()
